@@ -7,6 +7,7 @@ STUBS = "stubs: os.walk/scandir/isdir/isfile/exists/makedirs/abspath (virtual tr
         "Documenter = writer whose text is a function of (file, title, module name), write_to_file/print recorded"
 
 S1 = ("in", [], ["b.cmake", "A.CMAKE", "c.txt", "a.1-x.cmake", "a.cmake", "cmake"])      # a.1-x.cmake < a.cmake by name, > by (stem, ext), and both share the text before their first dot; "cmake": a file that is not *.cmake
+S1r = ("in", [], ["b.cmake", "A.CMAKE", "a.1-x.cmake", "a.cmake", "cmake"])      # S1 without the plain non-CMake file (one symbolic verdict less)
 S2 = ("in", [("z0", [], ["x.cmake"]), ("y1", [], ["x.cmake", "n.txt"])], ["b.cmake", "c.txt"])
 S2q = ("in", [("z0", [], ["x.cmake"]), ("y1", [], ["x.cmake", "w.cmake"])], ["b.v2.cmake"])      # a base name with an inner dot
 S2b = ("in", [("z0", [], ["n.txt"]), ("y1", [], ["M.CMake", "m.cmake"]), ("x2", [], ["q.cmake"])], ["b.cmake"])
@@ -26,7 +27,7 @@ def wide_skel(nfiles, ndirs):
     return ("in", [("s%02d" % i, [], ["f.cmake"]) for i in range(ndirs)], ["f%02d.cmake" % i for i in range(nfiles)])
 
 
-SKELS = {"CH12": chain_skel(12), "CH30": chain_skel(30), "W20": wide_skel(20, 12), "W60": wide_skel(60, 40), "S6": S6, "S1": S1, "S2": S2, "S2q": S2q, "S2b": S2b, "S3": S3, "S4": S4, "S5": S5, "S7": S7}
+SKELS = {"CH12": chain_skel(12), "CH30": chain_skel(30), "W20": wide_skel(20, 12), "W60": wide_skel(60, 40), "S6": S6, "S1": S1, "S2": S2, "S2q": S2q, "S2b": S2b, "S3": S3, "S4": S4, "S5": S5, "S7": S7, "S1r": S1r}
 
 
 def tree_ob(prefix, skel, mode, fix, fixp=True, fixrev=False, timeout=300, note="", fixexcl=False, prefixes=("P",)):
